@@ -88,3 +88,167 @@ def run_leaf(run, drv):
             shutil.rmtree(d, ignore_errors=True)
     finally:
         shutil.rmtree(root, ignore_errors=True)
+
+
+def _child_fill(blob, value):
+    """run in a worker process: rebuild the MemoryMappedTensor that crossed the process boundary and write through it"""
+    import pickle
+    try:
+        t = pickle.loads(blob)
+        seen = t.reshape(-1).to(torch.float64).tolist()
+        t.fill_(value)
+        return ["ok", seen]
+    except Exception as e:  # noqa: BLE001
+        return ["err", f"{type(e).__name__}: {str(e)[:160]}"]
+
+
+def run_ctors(run, drv, pools):
+    """The constructors of MemoryMappedTensor — zeros / ones / full / empty and their *_like forms — on a new file, over a former (shorter /
+    longer) file with existsok on / off / default, or without a file (shared-memory handler): they are `from_tensor` of an expanded
+    scalar (+ `fill_`), so the uint8 cases are compared with `populate` of the model; oracle: shape, dtype, values, file size and content read
+    back with from_filename, the recorded absolute file name; a refusal leaves the former file alone; the tensor sent to another process (with
+    or without a file) is a view of the same memory: the child sees the values and its write is seen here."""
+    from multiprocessing.reduction import ForkingPickler
+    from tensordict import MemoryMappedTensor as M
+    rng = run.rng
+    quick = run.tier == "quick"
+    root = BUILD / "tmp" / f"c10c_{run.seed}_{run.tier}"
+    shutil.rmtree(root, ignore_errors=True)
+    root.mkdir(parents=True, exist_ok=True)
+    ctors = ["zeros", "ones", "full", "empty", "zeros_like", "ones_like", "full_like", "empty_like"]
+    dtypes = [torch.uint8, torch.float32, torch.uint8, torch.int64, torch.uint8, torch.bool, torch.uint8, torch.float64, torch.uint8, torch.int16]
+    try:
+        for it in range(64 if quick else 480):
+            ctor = ctors[it % len(ctors)]
+            dt = dtypes[(it // len(ctors)) % len(dtypes)]
+            shape = rng.choice([[3], [2, 3], [4, 1, 2], [1], [2, 2]])
+            n = 1
+            for s in shape:
+                n *= s
+            item = torch.zeros((), dtype=dt).element_size()
+            fill = 1 if dt == torch.bool else rng.randint(2, 9)
+            where = rng.choice(["none", "new", "new", "short", "long"])
+            eo = rng.choice(["default", True, False]) if not ctor.endswith("_like") else "default"
+            how_shape = rng.choice(["args", "tuple", "size", "kw"])
+            d = root / f"c{it}"
+            d.mkdir()
+            f = d / "x.memmap"
+            old = None
+            if where in ("short", "long"):
+                old = [(200 + j) % 256 for j in range(item if where == "short" else n * item + 3)]
+                f.write_bytes(bytes(old))
+            kw = {} if where == "none" else {"filename": f if it % 2 else str(f)}
+            if eo != "default":
+                kw["existsok"] = eo
+            case = {"ctor": ctor, "dtype": str(dt), "shape": shape, "file": where, "existsok": eo, "shape_given_as": how_shape}
+            run.case(("ctor", it, str(case)))
+            run.count("ctor.kind", ctor)
+            want_v = {"zeros": 0, "ones": 1, "full": fill, "empty": None}[ctor.replace("_like", "")]
+            try:
+                with time_limit(60):
+                    if ctor.endswith("_like"):
+                        ex = torch.empty(shape, dtype=dt)
+                        r = getattr(M, ctor)(ex, fill, **kw) if ctor == "full_like" else getattr(M, ctor)(ex, **kw)
+                    else:
+                        if ctor == "full":
+                            kw["fill_value"] = fill
+                        if how_shape == "args":
+                            r = getattr(M, ctor)(*shape, dtype=dt, **kw)
+                        elif how_shape == "tuple":
+                            r = getattr(M, ctor)(tuple(shape), dtype=dt, **kw)
+                        elif how_shape == "size":
+                            r = getattr(M, ctor)(torch.Size(shape), dtype=dt, **kw)
+                        else:
+                            r = getattr(M, ctor)(shape=shape, dtype=dt, **kw)
+                outcome = "ok"
+            except TimeoutError as e:
+                raise Infra(f"constructor timed out: {e}")
+            except RuntimeError as e:
+                outcome = "exists" if "already exists" in str(e) else "RuntimeError: " + str(e)[:100]
+            except Exception as e:  # noqa: BLE001
+                outcome = f"{type(e).__name__}: {str(e)[:100]}"
+            problems = []
+            refuse = where in ("short", "long") and eo is not True
+            if refuse:
+                if outcome != "exists":
+                    problems.append(f"a file was there and existsok={eo}: expected a refusal, got {outcome}")
+                elif list(f.read_bytes()) != old:
+                    problems.append("the refused call changed the former file")
+            elif outcome != "ok":
+                problems.append(f"raised {outcome}")
+            else:
+                flat = r.reshape(-1)
+                if list(r.shape) != shape or r.dtype != dt or not isinstance(r, M):
+                    problems.append(f"result is a {type(r).__name__} of shape {list(r.shape)}, dtype {r.dtype}")
+                if want_v is not None and not bool((flat == want_v).all()):
+                    problems.append(f"values {flat.to(torch.float64).tolist()} instead of {want_v} everywhere")
+                if where == "none":
+                    if r._filename is not None or r._handler is None:
+                        problems.append(f"without a filename: _filename={r._filename}, handler={r._handler}")
+                else:
+                    import os
+                    if r._filename != os.path.abspath(str(f)):
+                        problems.append(f"records the file name {r._filename}")
+                    size = f.stat().st_size
+                    if size < n * item or (where != "long" and size != n * item):
+                        problems.append(f"file size {size} for {n} elements of {item} bytes")
+                    back = M.from_filename(f, dtype=dt, shape=torch.Size(shape))
+                    if not torch.equal(back.reshape(-1).to(torch.float64), flat.to(torch.float64)):
+                        problems.append("from_filename reads back other values than the tensor handed back")
+                # another process: same memory
+                if not problems:
+                    r.fill_(fill)
+                    for method, pool in pools.items():
+                        res = pool.apply(_child_fill, (bytes(ForkingPickler.dumps(r)), 0 if dt == torch.bool else fill + 1))
+                        if res[0] != "ok":
+                            problems.append(f"sent to a {method}ed process: {res[1]}")
+                        elif res[1] != [float(fill)] * n:
+                            problems.append(f"a {method}ed process sees {res[1]} instead of {fill}")
+                        elif not bool((r.reshape(-1) == (0 if dt == torch.bool else fill + 1)).all()):
+                            problems.append(f"the write made by a {method}ed process is not seen here")
+                        r.fill_(fill)
+                # the uint8 cases with a file against the leaf model: from_tensor of an expanded scalar (+ fill_)
+                if dt == torch.uint8 and where != "none" and drv is not None and not problems:
+                    like = ctor in ("empty", "empty_like", "zeros_like", "ones_like", "full_like")
+                    src_v = {"zeros": 0, "ones": 1, "full": fill, "empty": 0, "zeros_like": 0, "ones_like": 1, "full_like": 0, "empty_like": 0}[ctor]
+                    mdl = parse_sx(drv.ask(sx("c10.populate", ["mem", [src_v] * n], old, False, False, like, eo is True)))
+                    if mdl[0] == "ok":
+                        fb, tb = list(mdl[1]), list(mdl[2])
+                        if ctor in ("zeros_like", "ones_like", "full_like"):
+                            v2 = {"zeros_like": 0, "ones_like": 1, "full_like": fill}[ctor]
+                            fb, tb = [v2] * n + fb[n:], [v2] * n
+                        model = ["ok", fb, tb]
+                    else:
+                        model = ["err", mdl[1]]
+                    r2 = None
+                    # a second, identical call in a fresh directory gives the bytes before our fill_ above
+                    d2 = root / f"c{it}_again"
+                    d2.mkdir()
+                    f2 = d2 / "x.memmap"
+                    if old is not None:
+                        f2.write_bytes(bytes(old))
+                    kw2 = dict(kw, filename=f2)
+                    if ctor.endswith("_like"):
+                        r2 = getattr(M, ctor)(torch.empty(shape, dtype=dt), fill, **kw2) if ctor == "full_like" else getattr(M, ctor)(torch.empty(shape, dtype=dt), **kw2)
+                    else:
+                        r2 = getattr(M, ctor)(*shape, dtype=dt, **kw2)
+                    run.corr("constructor(file, tensor handed back)", case, ["ok", list(f2.read_bytes()), r2.reshape(-1).tolist()], model)
+            if not problems:
+                run.oracle_ok("memmap_tensor_constructors")
+            else:
+                run.oracle_fail("memmap_tensor_constructors", case, f"MemoryMappedTensor.{ctor}: " + "; ".join(problems[:3]), f"ctor:{ctor}:{'raise' if outcome != 'ok' else 'differs'}")
+            shutil.rmtree(d, ignore_errors=True)
+    finally:
+        shutil.rmtree(root, ignore_errors=True)
+
+
+def run_ctors_pools(run, drv):
+    import torch.multiprocessing as mp
+    pools = {"fork": mp.get_context("fork").Pool(1)}
+    if run.tier != "quick":
+        pools["spawn"] = mp.get_context("spawn").Pool(1)
+    try:
+        run_ctors(run, drv, pools)
+    finally:
+        for p in pools.values():
+            p.terminate()
